@@ -127,5 +127,8 @@ func (*Service) processorToConfig(p *processor.Instance) config.Processor {
 		Plugin:   p.Plugin,
 		Settings: p.Config.Settings,
 		Workers:  p.Config.Workers,
+		// without the condition an exported config never equals the imported
+		// one: every import/plan of a conditioned processor reports a change
+		Condition: p.Condition,
 	}
 }
